@@ -443,6 +443,9 @@ void mc_poll_sanitizers(void)
             char *ls = p; while (ls > buf && ls[-1] != '\n') ls--;
             char *le = strchr(p, '\n'); if (le) *le = 0;
             char site[120], kind[160]; const char *msg = p + 15;
+            /* "applying zero offset to null pointer" (NULL + 0, e.g. the end pointer of an empty key given as NULL): no byte is touched and every
+             * compiler defines it as NULL; it is not one of the listed properties' concerns and is not reported */
+            if (!strncmp(msg, "applying zero offset to null pointer", 36)) { if (!le) break; p = le + 1; continue; }
             /* site: file basename + line */
             char *colon = strchr(ls, ':'); const char *base = ls;
             for (char *c = ls; c < p; c++) if (*c == '/') base = c + 1;
@@ -694,12 +697,34 @@ void mc_word_decode(uint64_t idx, int k, int len, int *digits)
 }
 
 /* ------------------------------------------------------------------ worker plumbing */
-typedef struct { volatile uint64_t inflight_i; volatile int inflight_op; volatile int done; volatile int complete; volatile uint64_t cases; } wslot;
+typedef struct { volatile uint64_t inflight_i; volatile int inflight_op; volatile int done; volatile int complete; volatile uint64_t cases; volatile uint64_t beat; } wslot;
 static wslot *g_slots;
 static void slots_init(void)
 {
     if (!g_slots) g_slots = mmap(NULL, sizeof(wslot) * 64, PROT_READ | PROT_WRITE, MAP_SHARED | MAP_ANONYMOUS, -1, 0);
     memset(g_slots, 0, sizeof(wslot) * 64);
+}
+static wslot *g_myslot;             /* the forked worker's own slot: every guarded step leaves a heartbeat there */
+#define BEAT() do { if (g_myslot) g_myslot->beat++; } while (0)
+/* the parent's backstop: a worker whose heartbeat stands still for longer than its own watchdogs could explain (wedged inside the allocator or
+ * the sanitizer runtime after the library corrupted the heap, signal handlers included) is killed; the caller records the case it was running */
+static void wait_workers(pid_t *pids, int W, int *status)
+{
+    uint64_t last[64]; double since[64]; int alive[64], left = W;
+    double limit = (double) (g_hang_wall_s + g_hang_cpu_s + 120);
+    for (int w = 0; w < W; w++) { last[w] = g_slots[w].beat; since[w] = mc_now(); alive[w] = 1; status[w] = 0; }
+    while (left > 0) {
+        int reaped = 0;
+        for (int w = 0; w < W; w++) {
+            if (!alive[w]) continue;
+            int st = 0; pid_t r = waitpid(pids[w], &st, WNOHANG);
+            if (r == pids[w] || (r < 0 && errno != EINTR)) { alive[w] = 0; left--; status[w] = st; reaped = 1; continue; }
+            uint64_t b = g_slots[w].beat; double now = mc_now();
+            if (b != last[w]) { last[w] = b; since[w] = now; }
+            else if (now - since[w] > limit) { kill(pids[w], SIGKILL); since[w] = now; }
+        }
+        if (!reaped && left > 0) { struct timespec ts = { 0, 20 * 1000 * 1000 }; nanosleep(&ts, NULL); }
+    }
 }
 static void worker_enter(void)
 {
@@ -750,13 +775,16 @@ static int token_e2(const char *tok, const char *sysname, int level, uint64_t *i
     }
     return 1;
 }
+/* what errno holds when a case or an operation starts is none of the library's business: it is left over from something unrelated.
+ * Deterministic (a function of the case index / the operation), so that a replay sees the same value. */
+static const int STALE_ERRNO[4] = { 0, ENOMEM, EINTR, EAGAIN };
 static void e2_one(mc_case_fn fn, uint64_t idx, void *ctx)
 {
     cur.idx = idx; cur.note[0] = 0; cur.shape = NULL;
-    g_case_serial++; g_case_nontrivial_done = 0;
+    g_case_serial++; g_case_nontrivial_done = 0; BEAT();
     e3.active = 0; e3.n = 0;
     mc_protected = 1;
-    if (sigsetjmp(mc_jmp, 0) == 0) fn(idx, ctx);
+    if (sigsetjmp(mc_jmp, 0) == 0) { errno = STALE_ERRNO[idx & 3]; fn(idx, ctx); }
     mc_protected = 0;
     e3.active = 0;
     mc_poll_sanitizers();
@@ -787,7 +815,7 @@ int mc_e2_level(const char *sysname, int level, uint64_t n_cases, mc_case_fn fn,
         pid_t p = fork();
         if (p < 0) { emitf("E\tfork failed"); _exit(2); }
         if (p == 0) {
-            worker_enter();
+            worker_enter(); g_myslot = &g_slots[w];
             uint64_t n = 0; int complete = 1;
             for (uint64_t idx = (uint64_t) w; idx < n_cases; idx += (uint64_t) W) {
                 if ((n & 255) == 0 && mc_deadline_hit()) { complete = 0; break; }
@@ -808,9 +836,10 @@ int mc_e2_level(const char *sysname, int level, uint64_t n_cases, mc_case_fn fn,
         }
         pids[w] = p;
     }
-    int all = 1;
+    int all = 1; int wst[64];
+    wait_workers(pids, W, wst);
     for (int w = 0; w < W; w++) {
-        int st; while (waitpid(pids[w], &st, 0) < 0 && errno == EINTR) {}
+        int st = wst[w];
         if (!g_slots[w].done) {
             cur.idx = g_slots[w].inflight_i;
             char det[160]; snprintf(det, sizeof det, "worker died (wait status 0x%x) while running this case", st);
@@ -845,6 +874,7 @@ int mc_choose(int nopt)
 }
 static void e3_exec(void (*run)(void *), void *ctx, const int *prefix, int plen, int kmax, mc_e3_stats *st)
 {
+    BEAT();
     memcpy(e3.prefix, prefix, sizeof(int) * (size_t) plen);
     e3.plen = plen; e3.n = 0; e3.kmax = kmax; e3.active = 1;
     g_case_serial++;
@@ -937,9 +967,9 @@ static int mrec_cmp(const void *a, const void *b)
 static void e1_guarded_apply(const mc_sys *sys, void *st, int op, int *crashed)
 {
     *crashed = 0;
-    g_case_serial++;
+    g_case_serial++; BEAT();
     mc_protected = 1;
-    if (sigsetjmp(mc_jmp, 0) == 0) sys->apply(st, op); else *crashed = 1;
+    if (sigsetjmp(mc_jmp, 0) == 0) { errno = STALE_ERRNO[op & 3]; sys->apply(st, op); } else *crashed = 1;
     mc_protected = 0;
 }
 static void *e1_build(const mc_sys *sys, const uint16_t *hist, int len, int *crashed)
@@ -951,7 +981,7 @@ static void *e1_build(const mc_sys *sys, const uint16_t *hist, int len, int *cra
     mc_protected = 1;
     if (sigsetjmp(mc_jmp, 0) == 0) {
         st = sys->fresh();
-        for (int j = 0; j < len; j++) { cur.hlen = j; cur.op = hist[j]; sys->apply(st, hist[j]); }
+        for (int j = 0; j < len; j++) { cur.hlen = j; cur.op = hist[j]; BEAT(); errno = STALE_ERRNO[hist[j] & 3]; sys->apply(st, hist[j]); }
     } else { *crashed = 1; st = NULL; }
     mc_protected = 0;
     cur.hlen = len; cur.op = -1; cur.phase = NULL;
@@ -962,7 +992,7 @@ static void e1_guarded(void (*fn)(void *), void *st, const char *phase, int *cra
     *crashed = 0;
     if (!fn) return;
     cur.phase = phase;
-    g_case_serial++;
+    g_case_serial++; BEAT();
     mc_protected = 1;
     if (sigsetjmp(mc_jmp, 0) == 0) fn(st); else *crashed = 1;
     mc_protected = 0;
@@ -1050,7 +1080,7 @@ int mc_e1_run(const mc_sys *sys, int max_depth)
             pid_t p = fork();
             if (p < 0) { emitf("E\tfork failed"); _exit(2); }
             if (p == 0) {
-                worker_enter();
+                worker_enter(); g_myslot = &g_slots[w];
                 FILE *out = fdopen(fds[w], "w");
                 static char outbuf[1 << 16];
                 setvbuf(out, outbuf, _IOFBF, sizeof outbuf);
@@ -1101,9 +1131,10 @@ int mc_e1_run(const mc_sys *sys, int max_depth)
             }
             pids[w] = p;
         }
-        int all = 1;
+        int all = 1; int wst[64];
+        wait_workers(pids, W, wst);
         for (int w = 0; w < W; w++) {
-            int st; while (waitpid(pids[w], &st, 0) < 0 && errno == EINTR) {}
+            int st = wst[w];
             if (!g_slots[w].done) {
                 size_t i = (size_t) g_slots[w].inflight_i;
                 if (i < nF) { cur.hist = F[i].ops; cur.hlen = L; cur.op = g_slots[w].inflight_op; }
